@@ -143,7 +143,8 @@ type udpCase struct {
 	logic            string // ok|client|internal
 	interval         int64
 	complete, incomp uint32
-	p4, p6           [][]byte // 6 / 18 byte entries
+	p4, p6           [][]byte // address (4 or 16 bytes, either form in p4) ++ 2-byte port
+	p4gen, p6gen     int      // that many generated peers on top (genPeer)
 	c0, s0, i0       uint32
 	probes           []string
 	urlData          string // only used to compute lowmap
@@ -202,12 +203,27 @@ func peerList(ps [][]byte) string {
 	return strings.Join(l, ",")
 }
 
-func toPeers(ps [][]byte, n int, af bittorrent.AddressFamily) []bittorrent.Peer {
+func toPeers(ps [][]byte, gen int, af bittorrent.AddressFamily) []bittorrent.Peer {
 	var out []bittorrent.Peer
 	for _, p := range ps {
+		n := len(p) - 2
+		out = append(out, bittorrent.Peer{IP: bittorrent.IP{IP: append(net.IP{}, p[:n]...), AddressFamily: af}, Port: binary.BigEndian.Uint16(p[n:])})
+	}
+	for i := 0; i < gen; i++ {
+		p := genPeer(i, af == bittorrent.IPv6)
+		n := len(p) - 2
 		out = append(out, bittorrent.Peer{IP: bittorrent.IP{IP: append(net.IP{}, p[:n]...), AddressFamily: af}, Port: binary.BigEndian.Uint16(p[n:])})
 	}
 	return out
+}
+
+// genPeer: the i-th generated peer (the model's DUdp.genPeer): 10.x.y.z resp. 2001:db8::x:y:z, port i mod 65535 + 1
+func genPeer(i int, v6 bool) []byte {
+	port := uint16(i%65535 + 1)
+	if v6 {
+		return []byte{0x20, 0x01, 0x0d, 0xb8, 0, 0, 0, 0, 0, 0, 0, 0, 0, byte(i >> 16), byte(i >> 8), byte(i), byte(port >> 8), byte(port)}
+	}
+	return []byte{10, byte(i >> 16), byte(i >> 8), byte(i), byte(port >> 8), byte(port)}
 }
 
 func lowmapOf(urlData string) string {
@@ -280,7 +296,7 @@ func udpHandle(c *Ctx, uc udpCase) {
 	spy.mu.Lock()
 	spy.kind, spy.token = uc.logic, fmt.Sprintf("SECRET%d", c.Count)
 	spy.annResp = bittorrent.AnnounceResponse{Interval: time.Duration(uc.interval), Complete: uc.complete, Incomplete: uc.incomp,
-		IPv4Peers: toPeers(uc.p4, 4, bittorrent.IPv4), IPv6Peers: toPeers(uc.p6, 16, bittorrent.IPv6)}
+		IPv4Peers: toPeers(uc.p4, uc.p4gen, bittorrent.IPv4), IPv6Peers: toPeers(uc.p6, uc.p6gen, bittorrent.IPv6)}
 	spy.c0, spy.s0, spy.i0 = uc.c0, uc.s0, uc.i0
 	spy.call, spy.annReq = "", nil
 	spy.mu.Unlock()
@@ -317,9 +333,9 @@ func udpHandle(c *Ctx, uc udpCase) {
 		}
 		probes = strings.Join(l, ",")
 	}
-	op := fmt.Sprintf("udp.handle pkt=%s src=%s now=%d skew=%d spoof=%s maxnw=%d defnw=%d maxscrape=%d tag=%s gtag=%s logic=%s interval=%d complete=%d incomplete=%d p4=%s p6=%s c0=%d s0=%d i0=%d probe=%s lowmap=%s",
+	op := fmt.Sprintf("udp.handle pkt=%s src=%s now=%d skew=%d spoof=%s maxnw=%d defnw=%d maxscrape=%d tag=%s gtag=%s logic=%s interval=%d complete=%d incomplete=%d p4=%s p6=%s p4gen=%d p6gen=%d c0=%d s0=%d i0=%d probe=%s lowmap=%s",
 		hx(uc.pkt), hx(uc.src), uc.now, uc.skew, b01(uc.spoof), uc.maxnw, uc.defnw, uc.ms, hx(tag), hx(gtag), uc.logic, uc.interval, uc.complete, uc.incomp,
-		peerList(uc.p4), peerList(uc.p6), uc.c0, uc.s0, uc.i0, probes, lowmapOf(urlDataOf(optArea)))
+		peerList(uc.p4), peerList(uc.p6), uc.p4gen, uc.p6gen, uc.c0, uc.s0, uc.i0, probes, lowmapOf(urlDataOf(optArea)))
 
 	obs := func() (o string) {
 		defer func() {
@@ -538,7 +554,7 @@ func replayUDP(c *Ctx, op string, a map[string]string) {
 		return out
 	}
 	uc := udpCase{pkt: unhx(a["pkt"]), src: net.IP(unhx(a["src"])), now: i64("now"), skew: i64("skew"), spoof: a["spoof"] == "1", maxnw: u32("maxnw"), defnw: u32("defnw"), ms: u32("maxscrape"),
-		logic: a["logic"], interval: i64("interval"), complete: u32("complete"), incomp: u32("incomplete"), p4: list("p4"), p6: list("p6"), c0: u32("c0"), s0: u32("s0"), i0: u32("i0")}
+		logic: a["logic"], interval: i64("interval"), complete: u32("complete"), incomp: u32("incomplete"), p4: list("p4"), p6: list("p6"), p4gen: int(i64("p4gen")), p6gen: int(i64("p6gen")), c0: u32("c0"), s0: u32("s0"), i0: u32("i0")}
 	for _, p := range list("probe") {
 		uc.probes = append(uc.probes, string(p))
 	}
